@@ -498,6 +498,139 @@ def run_rt(chk, binary, cases):
             chk.monitor_fail(last[0][0], c, last[1], last[0][1] + " (3 attempts)")
 
 
+# ------------------------------------------------------------------ real goLoop on the virtual clock
+def gen_ft(rng, tier):
+    """Wheel with its real ticker under faketime: (step, n, requests at virtual instants).
+    Exact stream: request instants are never multiples of step; tie stream: they are."""
+    exact, ties = [], []
+    cfgs = [(1000000, 8), (7, 1), (7, 2), (1000, 3), (1000000000, 21), (13, 5)]
+    count = 60 if tier == "quick" else 1500
+    for k in range(count):
+        step, n = cfgs[k % len(cfgs)] if k < 4 * len(cfgs) else (rng.choice([3, 7, 1000, 999983, 1000000, 500000000]), rng.range(1, 12))
+        reqs, treqs = [], []
+        for _ in range(rng.range(1, 8)):
+            phase = rng.range(1, step - 1) if step > 2 else 1
+            r = rng.range(0, 3 * n) * step + phase
+            dmax = step * n - 1
+            d = rng.choice([0, 1, step - 1, step, step + 1, 2 * step, dmax, rng.range(0, dmax), (rng.range(0, n) * step) % (dmax + 1)])
+            d = max(0, min(d, dmax))
+            kind = rng.choice(["T", "T", "A"])
+            rq = "%d:%s:%d" % (r, kind, d)
+            if kind == "T" and rng.chance(1, 3):
+                d2 = rng.choice([0, step - 1, step, 2 * step + 1, rng.range(0, dmax)])
+                rq += ":%d" % max(0, min(d2, dmax))
+            reqs.append(rq)
+            treqs.append("%d:%s:%d" % (rng.range(1, 3 * n) * step, kind, d))
+        if rng.chance(1, 6):
+            reqs.append("%d:T:%d" % (rng.range(0, n) * step + 1, rng.choice([step * n, step * n + 5, -1])))   # out of range: panics
+        exact.append("c03f step=%d n=%d reqs=%s" % (step, n, ";".join(reqs)))
+        if k % 3 == 0:
+            ties.append("c03f step=%d n=%d reqs=%s" % (step, n, ";".join(treqs)))
+    return exact, ties
+
+
+_FIRE_CACHE = {}
+
+
+def ft_fires(keys):
+    """batch of (step, n, pre, d) -> fire tick or None, through the extracted model (c03idx)"""
+    todo = sorted(set(k for k in keys if k not in _FIRE_CACHE))
+    if todo:
+        outs = common.run_model(["c03idx step=%d n=%d pre=%d d=%d" % k for k in todo])
+        for k, out in zip(todo, outs):
+            _FIRE_CACHE[k] = int(out[5:]) if out.startswith("fire=") and out[5:].isdigit() else None
+
+
+def ft_parse(case):
+    m = dict(t.split("=", 1) for t in case.split()[1:])
+    step, n = int(m["step"]), int(m["n"])
+    reqs = [r.split(":") for r in m["reqs"].split(";")]
+    return step, n, reqs
+
+
+def ft_pres(step, r):
+    return [p for p in ([r // step] if r % step else [r // step, r // step - 1]) if p >= 0]
+
+
+def ft_expect_all(cases):
+    """Model prediction (sequential request after `pre` completed ticks; a request exactly at a
+    tick instant may see that tick done or not): per case, per request, the allowed fire-time tuples."""
+    parsed = [ft_parse(c) for c in cases]
+    ft_fires([(step, n, pre, int(rq[2])) for step, n, reqs in parsed for rq in reqs for pre in ft_pres(step, int(rq[0]))])
+    second = []
+    for step, n, reqs in parsed:
+        for rq in reqs:
+            if len(rq) > 3:
+                d, d2 = int(rq[2]), int(rq[3])
+                eff = d2 if d2 >= step else d          # Reset(x) keeps the old interval for x < step
+                for pre in ft_pres(step, int(rq[0])):
+                    f1 = _FIRE_CACHE[(step, n, pre, d)]
+                    if f1 is not None:
+                        second.append((step, n, f1, eff))
+    ft_fires(second)
+    res = []
+    for step, n, reqs in parsed:
+        per = []
+        for rq in reqs:
+            d = int(rq[2])
+            opts = []
+            for pre in ft_pres(step, int(rq[0])):
+                f1 = _FIRE_CACHE[(step, n, pre, d)]
+                if f1 is None:
+                    opts.append(("panic",))
+                elif len(rq) > 3:
+                    d2 = int(rq[3])
+                    f2 = _FIRE_CACHE[(step, n, f1, d2 if d2 >= step else d)]
+                    opts.append((f1 * step, f2 * step) if f2 is not None else ("panic",))
+                else:
+                    opts.append((f1 * step,))
+            per.append(opts)
+        res.append((step, reqs, per))
+    return res
+
+
+def run_ft(chk, tier):
+    try:
+        binary = common.build_go("./cmd/ftwheel", tags="verif faketime")
+    except common.BuildError as e:
+        chk.infra_errors.append("faketime wheel harness does not build against /repo: " + str(e)[-800:])
+        return
+    exact, ties = gen_ft(chk.rng.fork(), tier)
+    cases = exact + ties
+    try:
+        impl = common.run_impl(binary, cases, timeout=900, env=dict(os.environ, GOMAXPROCS="2"))
+    except common.ImplCrash as e:
+        chk.infra_errors.append("faketime wheel stream crashed or hung: " + str(e)[-800:])
+        return
+    expected = ft_expect_all(cases)
+    for idx, (c, i) in enumerate(zip(cases, impl)):
+        stream = "ticker-faketime" if idx < len(exact) else "ticker-faketime-ties"
+        chk.count_case(stream, c, True)
+        chk.cov["disagreements_checked"] += 1
+        if not i.startswith("fires="):
+            chk.monitor_fail("ticker-hang", c, i, "a timer of the wheel running on its real ticker never became ready")
+            continue
+        step, reqs, exp = expected[idx]
+        got = i[6:].split(";")
+        ok = True
+        for rq, g, opts in zip(reqs, got, exp):
+            gt = tuple(g.split(",")) if g == "panic" else tuple(int(x) for x in g.split(","))
+            r, d = int(rq[0]), int(rq[2])
+            if gt != ("panic",) and 0 <= d:
+                # property text: D - s < t - r <= D, D = max(s*floor(d/s), s)  (first firing)
+                D = max(step * (d // step), step)
+                t = gt[0] - r
+                if not (D - step < t <= D) and r % step:
+                    chk.monitor_fail("fire-window-time", c, i, "request at +%d ns with d=%d fired after %d ns, allowed (%d, %d]" % (r, d, t, D - step, D))
+                    ok = False
+            if gt not in opts:
+                chk.diverge(stream, c, "request %s: %s" % (":".join(rq), opts), g, "fire time on the virtual clock differs from the model's tick arithmetic")
+                ok = False
+        if ok:
+            chk.cov["traces_validated_against_impl"] += 1
+    chk.sample(dict(stream="ticker-faketime", case=cases[0], impl=impl[0]), limit=14)
+
+
 def run(chk):
     chk.trusted = common.BASE_TRUSTED + TRUSTED
     chk.assumptions = ["sync/atomic operations are sequentially consistent (Go memory model)",
@@ -522,6 +655,7 @@ def run(chk):
         except Exception as ex:
             chk.infra_errors.append("canary run failed: %r" % (ex,))
         run_rt(chk, binary, gen_rt(chk, chk.tier))
+        run_ft(chk, chk.tier)
         sample = [c for c in streams[1][1][::max(1, len(streams[1][1]) // 40)][:40]] + streams[3][1][:40] + streams[4][1][:40]
         try:
             mo = common.run_model(sample)
